@@ -289,3 +289,24 @@ def replay_known(ctx, kf):
     r = impl(w)
     ok, why = oracle(w, r)
     return (not ok), why
+
+
+def search(ctx):
+    """failing-input search: fresh, larger random inputs judged by the specification oracle alone"""
+    import time
+    from ..core import Finding
+    rng = ctx.rng
+    t0 = time.time()
+    budget = 150 if ctx.quick() else 900
+    n = 0
+    while time.time() - t0 < budget:
+        case = rand_case(rng, 5, 3, 3)
+        r = impl(case)
+        ok, why = oracle(case, r)
+        n += 1
+        ctx.evaluations += 1
+        if ok is False:
+            ctx.notes.append(f"failing-input search: violation found after {n} fresh inputs")
+            return Finding("search", case, r, "(specification oracle)", False, why)
+    ctx.notes.append(f"failing-input search: {n} fresh inputs, none violates the property")
+    return None
